@@ -515,6 +515,19 @@ def check_pinch_roles(ctx: CheckContext, p: Program, r: Resolver, funcs: List[Fu
     return n
 
 
+def _alias_source(f: FuncInfo, e: ast.AST) -> ast.AST:
+    """`cold = self.cold_pinch [if ... else None]`: the expression a once-assigned local stands for"""
+    if isinstance(e, ast.Name):
+        defs = [n.value for n in body_nodes(f) if isinstance(n, ast.Assign) and any(isinstance(t, ast.Name) and t.id == e.id for t in n.targets)]
+        defs = [d for d in defs if not (isinstance(d, ast.Constant) and d.value is None)]
+        if len(defs) == 1:
+            d = defs[0]
+            if isinstance(d, ast.IfExp):
+                d = d.orelse if isinstance(d.body, ast.Constant) else d.body
+            return d
+    return e
+
+
 def check_symmetric_collapse(ctx: CheckContext, p: Program, r: Resolver, funcs: List[FuncInfo], rule: str = "ROLE-SYM"):
     """A tolerance test that decides whether the hot and the cold pinch coincide must be symmetric: abs(hot - cold) < tol."""
     ctx.rule(rule, "a tolerance comparison of the difference between a hot and a cold pinch value is taken on abs(...): a one-sided test collapses every "
@@ -533,8 +546,9 @@ def check_symmetric_collapse(ctx: CheckContext, p: Program, r: Resolver, funcs: 
                 elif isinstance(side, ast.Call) and isinstance(side.func, ast.Attribute) and side.func.attr in ("abs", "fabs", "isclose") and side.args:
                     inner, has_abs = side.args[0], True
                 if isinstance(inner, ast.BinOp) and isinstance(inner.op, ast.Sub):
-                    la, lb_ = ast.unparse(inner.left), ast.unparse(inner.right)
-                    if _pinchy(la) and _pinchy(lb_) and {expr_role(inner.left), expr_role(inner.right)} == {"hot", "cold"}:
+                    il, ir = _alias_source(f, inner.left), _alias_source(f, inner.right)
+                    la, lb_ = ast.unparse(il), ast.unparse(ir)
+                    if _pinchy(la) and _pinchy(lb_) and {expr_role(il), expr_role(ir)} == {"hot", "cold"}:
                         n += 1
                         ctx.ob(rule, f"{f.qualname}:{norm_stmt(node)}", f"{f.module.relpath}:{node.lineno}", has_abs,
                                "" if has_abs else f"`{ast.unparse(node)}` compares a signed hot/cold pinch difference with a tolerance: it is true for every record "
@@ -771,4 +785,28 @@ def check_fresh_destination(ctx: CheckContext, p: Program, r: Resolver, qualname
             msg = (f"with {cond} the destination '{dst}' ({norm_stmt(st)}) is the collection left by the previous import: "
                    f"sub-zone streams are appended again, so the zone's own targets are computed on duplicated streams")
         ctx.ob(rule, f"{f.qualname}:{dst}", f"{f.module.relpath}:{lst[0][2].lineno}", ok, msg, assignments_explored=len(lst))
+    # every caller (the recursive descent included) asks for fresh collections: omitted (default True), literal True, or its own flag forwarded
+    default_true = isinstance(f.default_of(new_flag), ast.Constant) and f.default_of(new_flag).value is True
+    pos_index = f.pos_params.index(new_flag) - 1 if new_flag in f.pos_params else None
+    for g in p.all_funcs:
+        if isinstance(g.node, ast.Lambda):
+            continue
+        for call, tg in r.calls_of(g):
+            if f not in tg and not (isinstance(call.func, ast.Attribute) and call.func.attr == f.name):
+                continue
+            val = next((k.value for k in call.keywords if k.arg == new_flag), None)
+            if val is None and pos_index is not None and pos_index < len(call.args):
+                val = call.args[pos_index]
+            n += 1
+            if val is None:
+                ok, how = default_true, "the default"
+            elif isinstance(val, ast.Constant):
+                ok, how = val.value is True, repr(val.value)
+            elif isinstance(val, ast.Name) and g is f and val.id == new_flag:
+                ok, how = True, "forwarded"
+            else:
+                continue                 # computed value: not decided here
+            ctx.ob(rule, f"{g.qualname}:call:{new_flag}", f"{g.module.relpath}:{call.lineno}", ok,
+                   "" if ok else f"{g.name} calls {f.name} with {new_flag}={how}: the (sub-)zone's collections are not re-created, so streams already present "
+                                 f"(from an earlier import or a relative-path match) are kept and the children's streams are appended to them")
     return n
